@@ -8,6 +8,10 @@ ENV = "GOFLAGS=-mod=mod GOPROXY=off GOSUMDB=off GOTOOLCHAIN=local"
 
 # id -> (technique, level text, level note, design ref)
 CLAIMS = {
+ "C14": ("transfer-table extraction by path exploration of each compile arm's go/cfg graph specialised on (input type, mark type), compared between the two compilers on the reachable typing states; Boolean evaluation of polarity arguments; ordering-domain truth tables for range lowering (go/types AST)",
+         "Decides for ALL statement sequences over the steps the Mongo compiler supports: (Y1) the per-statement typing transfer (input type, mark type) → {reject} ∪ {accept→type [+mark update]} of mongo.Compiler.Compile equals that of core.StatementProcessor (core.Validate folded in where it is run) on every typing state reachable under the core transfers — both compilers are folds of these transfers, so they accept the same traversals and assign the same result and mark types; open guards are compared by presence only. For ALL has-expressions: (Y2) the Not arm complements the polarity, And/Or/Condition arms pass it on, And/Or dualise under negation, conditions are wrapped in $not exactly under negation; (Y3) every gripql.Condition has a translation, gt/gte/lt/lte map to the operator with the core evaluator's comparison, and inside/outside/between lower to comparisons with the same truth table as the core predicate on every ordering of (value, lower, upper). Does not decide MongoDB's semantics on missing/array/differently-typed fields.",
+         "Trusted: go/types, go/cfg; the dictionary of Mongo operator meanings on scalars.",
+         "DESIGN.md §4 C14"),
  "C10": ("abstract interpretation over go/ssa (domain nil/non-nil/true/false) of HasKey/Get under the library's found/absent outcomes; must-assign dataflow, commit-after-error and iterator-positioning typestate over go/cfg; registration/link check (go/types)",
          "Decides sibling agreement of the four adapters structurally, for ALL keys and operation sequences: (S1) every HasKey/Get of every store, transaction and iterator type returns true/false (nil/non-nil error) exactly on the library's found/absent outcome and calls no method on a nil interface value in either; (S2) iterators whose Valid() reads cached fields assign them on every path of Seek, SeekReverse and Next; (S3) no library Commit/Flush is reached after the Update/BulkWrite callback failed, none is deferred unconditionally, (S3b) transaction objects do not write straight to the store handle; (S4) library iterators are positioned before Valid/Key/Value/Item; (S5) driver names the server selects are registered by packages it links. Does not decide key order, seek landing positions, prefix-delete completeness, or cross-driver equality of traversal results.",
          "Trusted: outcome tables of the store libraries' lookup calls and the rollback behaviour of bolt/badger transaction wrappers (props/c10.go); go/ssa, go/cfg.",
